@@ -29,7 +29,7 @@ func C11Meta() harness.Meta {
 			"kernel source/destination ranges are 4-byte aligned (the copy kernel moves 4-byte elements)",
 		},
 		FaultKinds:     []string{"tie_reorder", "config_swarm"},
-		ExpectedProbes: []string{"copy_crossed_page", "copy_crossed_gpu", "d2h_after_kernel", "dma_path", "direct_path", "distributed_buffer", "unaligned_offset", "two_gpus_timing", "mi300a", "kernel_in_flight_during_next_op"},
+		ExpectedProbes: []string{"copy_crossed_page", "copy_crossed_gpu", "d2h_after_kernel", "dma_path", "direct_path", "distributed_buffer", "unaligned_offset", "two_gpus_timing", "mi300a", "kernel_in_flight_during_next_op", "buffer_on_unified_device"},
 		PerRunTimeoutS: 180,
 		ShrinkBudget:   40,
 	}
@@ -46,6 +46,9 @@ type c11cfg struct {
 type c11buf struct {
 	Pages      int
 	Distribute bool
+	// Unified: the buffer lives on a unified device made of all GPUs (the driver spreads its pages; copy
+	// kernels on it are unified launches)
+	Unified bool
 }
 
 // C11 is the property check.
@@ -94,7 +97,11 @@ func C11(t *testing.T, ch *choice.Source, opt harness.Options, env *Env) harness
 	var obsTimes []float64
 	nb := 1 + ch.Intn(3, "buffers")
 	for i := 0; i < nb; i++ {
-		c.Buffers = append(c.Buffers, c11buf{Pages: 1 + ch.Intn(4, "pages"), Distribute: c.Spec.NumGPUs > 1 && ch.Bool(1, 2, "distribute")})
+		bc := c11buf{Pages: 1 + ch.Intn(4, "pages"), Distribute: c.Spec.NumGPUs > 1 && ch.Bool(1, 2, "distribute")}
+		if c.Spec.NumGPUs > 1 && !bc.Distribute && ch.Bool(1, 2, "unified") {
+			bc.Unified = true
+		}
+		c.Buffers = append(c.Buffers, bc)
 	}
 	if c.Spec.Timing && !c.Spec.MagicCopy && c.Spec.NumGPUs == 2 && ch.Bool(1, 3, "bigbuf") {
 		// a long-running kernel on one GPU while copies go to the other
@@ -238,8 +245,20 @@ func C11(t *testing.T, ch *choice.Source, opt harness.Options, env *Env) harness
 				pending bool // a kernel is enqueued and not drained
 			}
 			var bufs []*buf
+			unifiedDev := 0
 			for bi, bc := range c.Buffers {
 				home := 1 + bi%c.Spec.NumGPUs
+				if bc.Unified {
+					if unifiedDev == 0 {
+						var ids []int
+						for g := 1; g <= c.Spec.NumGPUs; g++ {
+							ids = append(ids, g)
+						}
+						unifiedDev = d.CreateUnifiedGPU(ctx, ids)
+					}
+					home = unifiedDev
+					probes["buffer_on_unified_device"]++
+				}
 				d.SelectGPU(ctx, home)
 				b := &buf{size: bc.Pages * pageSize, q: d.CreateCommandQueue(ctx)}
 				b.ptr = d.AllocateMemory(ctx, uint64(b.size))
@@ -252,7 +271,7 @@ func C11(t *testing.T, ch *choice.Source, opt harness.Options, env *Env) harness
 					probes["distributed_buffer"]++
 					logOp(fmt.Sprintf("buf%d: %d pages distributed over %v", bi, bc.Pages, ids))
 				} else {
-					logOp(fmt.Sprintf("buf%d: %d pages on GPU %d", bi, bc.Pages, home))
+					logOp(fmt.Sprintf("buf%d: %d pages on device %d (unified: %v)", bi, bc.Pages, home, bc.Unified))
 				}
 				b.shadow = make([]byte, b.size)
 				for i := range b.shadow {
